@@ -52,6 +52,12 @@ pub fn suite(out: &mut Out, seed: u64, thorough: bool) {
 			// affine map a*x+b, including negative a
 			for (a, b) in [(2.0, 3.0), (-1.5, 10.0), (0.001, -7.0), (-1.0, 0.0)] {
 				let zs: Vec<V> = xs.iter().map(|x| ((a * *x as f64) + b) as V).collect();
+				// Vidya's smoothing depends discontinuously on the inputs (|up-dn|/(up+dn) of the changes): the law is about the
+				// stream a*x+b itself, so it is checked only where the floating-point map loses no information about x
+				if kind == "vidya" && !xs.iter().zip(zs.iter()).all(|(x, z)| (((*z as f64) - b) / a) as V == *x) {
+					out.count("affine_skipped_inexact_map");
+					continue;
+				}
 				if let Some(oz) = run_ma(kind, len, zs[0], &zs) {
 					let scale = a.abs() * mx + b.abs();
 					let mut bad = None;
